@@ -15,9 +15,10 @@ import Astisub.Model.LinCorr
 The error analysis below is done over an *abstract* rounding function satisfying the standard
 model of floating-point arithmetic (`FloatModel`: monotone, relative error ≤ 2⁻⁵³, exact on
 integers up to 2⁵³) — it therefore holds for IEEE-754 binary64 round-to-nearest-even and for any
-other rounding with these properties. That `Go.Float53` is such a function is *not* proved here
-(partial): both are tied to the machine's arithmetic, the theorems by the IEEE standard, the
-executable model by the bit-for-bit correspondence.
+other rounding with these properties. That `Go.Float53` is such a function, and the same bounds
+for the executable tree `LinCorr.apply1` itself, are proved in `Props/C15float.lean`
+(`binary64`, `close_exec`, `monotone_exec`, `length_scaled_exec`); what remains assumed is that
+the hardware's float64 equals the executable model (bit-for-bit correspondence, `lib.f53`).
 -/
 
 namespace Astisub
